@@ -512,4 +512,91 @@ def rule_L2(prog, fixture=False):
             res.add(key, VIOLATED, "%s:%d" % (prog.rel(f.file), bad[0][2]), "%s clamps the gain" % f.short, bad[0][1], func=f.name)
         else:
             res.add(key, DISCHARGED, where, "%s clamps the gain" % f.short, "; ".join(v[1] for v in verdicts), func=f.name)
+        # first use: the value the function finds in the state (the in-class initialiser on a fresh object) has not been through
+        # the clamp unless a constructor applies it; a use that feeds the *output* must therefore lie behind the clamp on every
+        # path from the function's entry, not only on the paths from the updates
+        ctor_clamps = False
+        for g in prog.functions.values():
+            if g.kind in ("ctor",) and not g.get("implicit") and ("Agc" in (g.cls or "") or fixture) and _find_clamps(g, gain, ceil):
+                ctor_clamps = True
+        f.blocks
+        early = None
+        n_out = 0
+        state_vars = [gain] + [("local", vid, vname) for vid, vname in sorted(carriers.items())]
+        for var in state_vars:
+            clamps = _find_clamps(f, var, ceil)
+            cnodes = [(c.role("cond") if c.k == "IfStmt" else c) for c in clamps]
+            clamp_ids = {x.id for c in clamps for x in c.walk()}
+            for r in f.walk():
+                if r.id in clamp_ids or not _is_field(r, var) or r.strip_all().id != r.id:
+                    continue
+                if not _feeds_output(f, r, state_vars, set(), 0):
+                    continue
+                n_out += 1
+                if not any(c is not None and f.precedes(c, r) for c in cnodes):
+                    early = r
+                    break
+            if early is not None:
+                break
+        fkey2 = "L2:first-use:" + fkey(f)
+        if early is not None and not ctor_clamps:
+            st = early
+            while st.parent is not None and st.parent.k not in ("CompoundStmt", "ForStmt", "WhileStmt", "IfStmt"):
+                st = st.parent
+            res.add(fkey2, VIOLATED, "%s:%d" % (prog.rel(f.file), early.line), "%s applies only a clamped gain" % f.short,
+                    "`%s` uses the gain state for the output before the clamp has been passed on the way from the function's entry: "
+                    "the first sample a fresh object processes is scaled by the unclamped start value (exp of the in-class "
+                    "initialiser), whatever max_gain says" % st.text()[:90], func=f.name)
+        elif n_out:
+            res.add(fkey2, DISCHARGED, where, "%s applies only a clamped gain" % f.short,
+                    "%d output use(s) of the gain, each behind the clamp on every path from the entry%s" % (
+                        n_out, " (a constructor clamps the start value)" if ctor_clamps and early is not None else ""), func=f.name)
     return res
+
+
+def _feeds_output(f, r, gain, seen, depth):
+    """does the value read at r flow into something other than the gain state itself (an element of a result array, another
+    member, the return value)?  Reads that only feed the next value of the gain (the loop error) or a branch condition do not."""
+    p = r
+    while p.parent is not None:
+        par = p.parent
+        if par.k == "ReturnStmt":
+            return True
+        if par.k in ("BinaryOperator", "CompoundAssignOperator") and par.op and par.op.endswith("=") and par.op not in ("==", "!=", "<=", ">=") \
+                and len(par.c) == 2 and par.c[1].id == p.id:
+            return _target_is_output(f, par.c[0], gain, seen, depth)
+        if par.k == "CXXOperatorCallExpr" and par.op and par.op.endswith("=") and par.op not in ("==", "!=", "<=", ">=") and len(par.c) == 3 \
+                and par.c[2].id == p.id:
+            return _target_is_output(f, par.c[1], gain, seen, depth)
+        if par.k == "VarDecl":
+            return _target_is_output(f, par, gain, seen, depth)
+        if par.k in ("IfStmt", "WhileStmt", "ForStmt", "DoStmt", "CompoundStmt", "ConditionalOperator") and par.k != "ConditionalOperator":
+            return False
+        p = par
+    return False
+
+
+def _target_is_output(f, t, gain, seen, depth):
+    if t.k == "VarDecl":
+        vid = t.decl.get("id") if t.decl else None
+        if any(isinstance(v, tuple) and v[1] == vid for v in gain):
+            return False
+    else:
+        t0 = t.strip_all()
+        if any(_is_field(t0, v) for v in gain):
+            return False          # the state itself or a local that carries it: its own uses are looked at separately
+        if not (t0.k == "DeclRefExpr" and t0.decl and t0.decl.get("k") == "local"):
+            return True           # an element, another member, a reference parameter
+        vid = t0.decl.get("id")
+    if vid is None or vid in seen or depth > 3:
+        return False
+    seen.add(vid)
+    for x in f.walk():
+        if x.k == "DeclRefExpr" and x.decl and x.decl.get("id") == vid and x.id != (t.id if t.k != "VarDecl" else -1):
+            par = x.parent
+            # skip the defining occurrence on the left of an assignment
+            if par is not None and par.k in ("BinaryOperator", "CompoundAssignOperator") and par.op == "=" and par.c[0].strip_all().id == x.id:
+                continue
+            if _feeds_output(f, x, gain, seen, depth + 1):
+                return True
+    return False
